@@ -27,9 +27,14 @@ def feature_configs():
     out = {}
     for mask in range(8):
         fs = [f for i, f in enumerate(FEATURES) if mask & (1 << i)]
-        name = "f-" + ("".join(f[0] for f in fs) or "none")
-        out[name] = fs
+        out[config_name(fs)] = fs
+    assert len(out) == 8
     return out
+
+
+def config_name(fs):
+    """`f-hi-au-he` ... `f-none` (two letters per feature: `history` and `help` share their initial)"""
+    return "f-" + ("-".join(f[:2] for f in FEATURES if f in fs) or "none")
 
 
 def tree_hash(root=None):
